@@ -493,6 +493,11 @@ class LocalGitTagDict(GitTags):
             name = tag_name_to_ref(k)
             if name in extra:
                 extra.remove(name)
+            if not self.repository.has_revision(revid):
+                # git can not point a tag at a revision it does not have: a ref
+                # to a missing object is unreadable and would hide the tag's
+                # current definition, so leave the tag alone
+                continue
             with contextlib.suppress(errors.GhostTagsNotSupported):
                 self.set_tag(k, revid)
         for name in extra:
